@@ -312,7 +312,11 @@ func (s *c09State) vec() []float32 {
 }
 
 func (s *c09State) nonString() any {
-	switch s.cs.R.Intn(4) {
+	switch s.cs.R.Intn(6) {
+	case 4: // JSON null: the field stops holding a text
+		return nil
+	case 5: // an object
+		return map[string]any{"w": s.word()}
 	case 0:
 		return float64(s.cs.R.Intn(9))
 	case 1:
